@@ -170,8 +170,8 @@ class C01(Prop):
     REAL_VS_STUB = {'real': ['everything under dataflows/ that the pipeline touches'], 'stub': ['none (the schedule is chosen by how the harness groups and drains the real generators)']}
     PROBES = ['user-bound-method', 'user-partial', 'user-callable-obj', 'user-lambda', 'user-function', 'crossed-inference-sample', 'nested-depth>=2', 'conditional-wrapped',
               'barrier-after-sources', 'api-process', 'api-datastream', 'both-raise-discard', 'uninterpretable-link', 'one-shot-source', 'nested-in-place-edit']
-    TIERS = {'quick': dict(runs=500, wall=100, run_wall=120),
-             'thorough': dict(runs=15000, wall=1700, run_wall=300)}
+    TIERS = {'quick': dict(runs=500, wall=100, run_wall=300),
+             'thorough': dict(runs=15000, wall=1700, run_wall=600)}
     SHRINK_FROZEN = ('fields', 'gen_stats')
 
     def generate(self, rng, tier):
